@@ -54,6 +54,10 @@ def check(repo: Repo) -> Result:
     share(res, r10, "C17", lambda t: t.__dict__.update(c17.check(repo).__dict__), ["C17-R1"], want=lambda k: k.startswith("ufunc"))
     from rules.ufunc import missing_unit_rule
 
+    from rules import c02
+
+    r12 = res.rule("C04-R12", "the coefficient the multiply / divide unit rules split off belongs to the unit it was split from: as_coeff_unit returns (c, u') with scale(u') = scale(u) / c computed from the unit's own scale, not looked up again in a registry whose definition may differ (shared with C02-R3)", floor=4)
+    share(res, r12, "C02", lambda t: c02.homomorphism(repo, t), ["C02-R3"], want=lambda k: k.startswith("as_coeff_unit:"), min_keys=4)
     r11 = res.rule("C04-R11", "an operand without units is given the null unit (scale 1, dimensionless), never the other operand's unit", floor=4)
     missing_unit_rule(anchors, res, r11)
     return res
